@@ -227,25 +227,25 @@ theorem eb_prediction_parallelogram_roundtrip (md : MeshData) (wt : WrapT) (lo h
 
 /-- two triangles `(0,1,2)`, `(2,1,3)`; values are coded in the order of the corners 1, 2, 0, 5; the last entry
     has a parallelogram -/
-private def mdEx : MeshData :=
+def exMesh : MeshData :=
   { t := { c2v := #[0, 1, 2, 2, 1, 3], opp := #[5, inv, inv, inv, inv, 0], seam := #[], lm := #[0, 1, 2, 5],
            isAtt := false, numFaces := 2 },
     d2c := #[1, 2, 0, 5], v2d := #[2, 0, 1, 3] }
 
 open Draco.EbEnc in
 set_option maxRecDepth 4000 in
-private theorem exParallelogramEnc :
-    parallelogramEncode mdEx ⟨0, 20, 21, 10, -10⟩ 1 #[3, 7, 12, 16] = .ok #[3, 4, 5, -5] := by
+theorem exParallelogramEnc :
+    parallelogramEncode exMesh ⟨0, 20, 21, 10, -10⟩ 1 #[3, 7, 12, 16] = .ok #[3, 4, 5, -5] := by
   simp [parallelogramEncode, encodeBackward, parallelogramCorrAt, parallelogramPredictionE, checkParallelogramEntries,
-    corrWrap, parallelogramPrediction, mdEx, TView.opposite, TView.vertex, rd, rdI, wrI, inv, Eb.nextC, Eb.prevC,
+    corrWrap, parallelogramPrediction, exMesh, TView.opposite, TView.vertex, rd, rdI, wrI, inv, Eb.nextC, Eb.prevC,
     Std.Legacy.Range.forIn_eq_forIn_range', Std.Legacy.Range.size, bind, Except.bind, pure, Except.pure, wrap32,
     Wrap.encCorr, Wrap.clamp, List.range'_succ]
   decide
 
 open Draco.EbEnc in
 /-- non-vacuity: the last entry is predicted by a parallelogram (3 + 7 − 12, clamped to 0, correction wrapped) -/
-example : ∃ used, parallelogramDecode mdEx ⟨0, 20, 21, 10, -10⟩ 1 #[3, 4, 5, -5] = .ok (#[3, 7, 12, 16], used) :=
-  eb_prediction_parallelogram_roundtrip mdEx ⟨0, 20, 21, 10, -10⟩ 0 20 1 4 #[3, 7, 12, 16] _ (by decide) (by decide)
+example : ∃ used, parallelogramDecode exMesh ⟨0, 20, 21, 10, -10⟩ 1 #[3, 4, 5, -5] = .ok (#[3, 7, 12, 16], used) :=
+  eb_prediction_parallelogram_roundtrip exMesh ⟨0, 20, 21, 10, -10⟩ 0 20 1 4 #[3, 7, 12, 16] _ (by decide) (by decide)
     (by decide) (by decide) (by decide) (by decide) (by decide) (by decide) exParallelogramEnc
 
 open Draco.EbEnc in
@@ -264,17 +264,17 @@ theorem eb_prediction_geometric_normal_roundtrip (md : MeshData) (ps : PosSource
 
 
 /-- one triangle in the plane z = 0 (positions (0,0,0), (4,0,0), (0,4,0)), 4 bit octahedral coordinates -/
-private def mdN : MeshData :=
+def exTriangle : MeshData :=
   { t := { c2v := #[0, 1, 2], opp := #[inv, inv, inv], seam := #[], lm := #[0, 1, 2], isAtt := false, numFaces := 1 },
     d2c := #[1, 2, 0], v2d := #[2, 0, 1] }
-private def psN : PosSource := { pointIds := #[1, 2, 0], map := #[0, 1, 2], values := #[0, 0, 0, 4, 0, 0, 0, 4, 0] }
-private def otN : OctaT := { q := 4, maxQ := 15, maxV := 14, center := 7 }
+def exPositions : PosSource := { pointIds := #[1, 2, 0], map := #[0, 1, 2], values := #[0, 0, 0, 4, 0, 0, 0, 4, 0] }
+def exOcta : OctaT := { q := 4, maxQ := 15, maxV := 14, center := 7 }
 
 open Draco.EbEnc in
 set_option maxRecDepth 8000 in
-private theorem exNormalEnc :
-    geometricNormalEncode mdN psN otN #[7, 7, 3, 5, 10, 4] = .ok (#[7, 0, 5, 4, 4, 12], #[true, true, true]) := by
-  simp [geometricNormalEncode, normalPredict, normalCorrection, mdN, psN, otN, PosSource.get, TView.opposite, TView.vertex,
+theorem exNormalEnc :
+    geometricNormalEncode exTriangle exPositions exOcta #[7, 7, 3, 5, 10, 4] = .ok (#[7, 0, 5, 4, 4, 12], #[true, true, true]) := by
+  simp [geometricNormalEncode, normalPredict, normalCorrection, exTriangle, exPositions, exOcta, PosSource.get, TView.opposite, TView.vertex,
     TView.swingLeft, TView.swingRight, rd, rdI, wrI, inv, Eb.nextC, Eb.prevC,
     Std.Legacy.Range.forIn_eq_forIn_range', Std.Legacy.Range.size, bind, Except.bind, pure, Except.pure, wrap32,
     List.range'_succ, Octa.canonicalizeIntVec, Octa.intVecToCoords, Octa.encCorr, Octa.modMax, Octa.makePositive,
@@ -285,11 +285,11 @@ private theorem exNormalEnc :
 open Draco.EbEnc in
 /-- non-vacuity: three normals against the face normal (0,0,1) · 16, all coded with the flipped prediction; the
     bit decoder is the one `eb_bit_buffer_roundtrip` provides for the flip bits -/
-example : ∃ fd k, geometricNormalDecode mdN psN otN (Leaf.octaDec otN) false fd #[7, 0, 5, 4, 4, 12] =
+example : ∃ fd k, geometricNormalDecode exTriangle exPositions exOcta (Leaf.octaDec exOcta) false fd #[7, 0, 5, 4, 4, 12] =
     .ok (#[7, 7, 3, 5, 10, 4], k) := by
   obtain ⟨d, _, hy⟩ := eb_bit_buffer_roundtrip ⟨fun n0 tot => (512 * n0 + tot) / (2 * tot), ProbOracle.exact, fun _ => .tagged⟩
     [true, true, true] (by decide) []
-  obtain ⟨k, hk⟩ := eb_prediction_geometric_normal_roundtrip mdN psN 4 otN (by decide) #[7, 7, 3, 5, 10, 4] 3 rfl rfl
+  obtain ⟨k, hk⟩ := eb_prediction_geometric_normal_roundtrip exTriangle exPositions 4 exOcta (by decide) #[7, 7, 3, 5, 10, 4] 3 rfl rfl
     (by decide) _ _ exNormalEnc d hy
   exact ⟨d, k, hk⟩
 
